@@ -34,7 +34,7 @@ type opSpec struct {
 	Op   string `json:"op"`             // sub | batch | adv | cancel | close
 	Key  string `json:"key,omitempty"`  // batch: key ("" with N>1: N distinct keys k0..)
 	S    int    `json:"s,omitempty"`    // subscriber number (sub, cancel)
-	Kind string `json:"kind,omitempty"` // sub: prompt | slow | stalled
+	Kind string `json:"kind,omitempty"` // sub: prompt | slow | stalled | late
 	N    int    `json:"n,omitempty"`    // batch: number of consecutive Batch calls (distinct keys); adv: ticks
 	Idle bool   `json:"idle,omitempty"` // the op may start only when nothing else can move (everything blocked or done)
 	After int   `json:"after,omitempty"` // the op may start only after this many Batch calls were issued
@@ -130,6 +130,7 @@ func runSchedule(b, hb *tv.Batch, prog program, seed int64) result {
 	var closeCalled atomic.Bool
 	var openRacing []int // subscribers (Subscribe overlapping Close) whose channel was open when a Close returned
 	stop := make(chan struct{})
+	drainCh := make(chan struct{}) // closed when the drain phase begins: the "late" readers start reading
 	var draining atomic.Bool
 	type sub struct {
 		cancel context.CancelFunc
@@ -163,6 +164,13 @@ func runSchedule(b, hb *tv.Batch, prog program, seed int64) result {
 		if kind == "stalled" {
 			<-stop
 			return
+		}
+		if kind == "late" { // stays away while the program runs, then reads everything
+			select {
+			case <-drainCh:
+			case <-stop:
+				return
+			}
 		}
 		for {
 			if kind == "slow" && !draining.Load() {
@@ -354,6 +362,7 @@ func runSchedule(b, hb *tv.Batch, prog program, seed int64) result {
 		clk.Step(1000 * tick)
 		draining.Store(true)
 		final = true
+		close(drainCh)
 		d2 := &sched.Driver{C: ctl, Rng: rng, MaxSteps: 4000, AtQuiescence: d.AtQuiescence, Extra: d.Extra}
 		err = d2.Run()
 		d.Log = append(d.Log, d2.Log...)
@@ -619,6 +628,8 @@ func TestCheck(t *testing.T) {
 		{Clients: [][]opSpec{{S(1, "prompt"), SP(2, "prompt"), BA("a"), ADV(10)}, {after(SP(3, "slow"), 1), CL}}},
 		{Clients: [][]opSpec{{SP(1, "prompt"), BA("a"), ADV(10), S(2, "prompt"), BA("b"), ADV(10)}, {SP(3, "stalled")}}},
 		{Clients: [][]opSpec{{S(1, "prompt"), BA("a")}, {CA(1)}, {after(CL, 1)}}},
+		// a reader that stays away with more than buffer + 1 values outstanding and then reads: it gets every one of them
+		{Clients: [][]opSpec{{S(1, "late"), S(2, "prompt"), BN(56), ADV(10)}}},
 	}
 	heavy := func(p program) bool { // the 53-value programs are long: fewer schedules of each in the quick tier
 		for _, c := range p.Clients {
@@ -651,7 +662,7 @@ func TestCheck(t *testing.T) {
 	for _, p := range staged {
 		n := nStaged
 		if heavy(p) {
-			n = ev.Pick(12, nStaged)
+			n = ev.Pick(10, nStaged)
 		}
 		for i := 0; i < n; i++ {
 			run(p, rng.Int63())
@@ -725,6 +736,15 @@ func TestCheck(t *testing.T) {
 	for i := 0; i < sb.Len(); i++ {
 		jb.AppendTrace(sb.Trace(i))
 	}
+	// free-running rounds (free_test.go): Batch calls racing the exit of the queue processor's loop, same contract
+	freeStart := time.Now()
+	fb, freeCalls, freeLost := freeRuns(8, ev.Pick(2*time.Second, 40*time.Second))
+	nFree0 := jb.Len()
+	for i := 0; i < fb.Len(); i++ {
+		jb.AppendTrace(fb.Trace(i))
+	}
+	fmt.Printf("free-running: %d Batch calls on 8 parallel batchers in %s, %d batchers lost a value, %d windows (%d events) handed to TLC\n", freeCalls, time.Since(freeStart).Round(time.Millisecond), freeLost, fb.Len(), fb.Lines())
+	e.Set("free_running_batch_calls", int64(freeCalls))
 	rej, res := tv.ValidateChunked(tlc.Opts{Dir: "Batcher", Module: "TraceBatch", Config: "TraceBatch.cfg", Workers: 16, Timeout: ev.Pick(6*time.Minute, 40*time.Minute), HeapMB: 12000}, jb)
 	fmt.Printf("TLC contract validation: ok=%v traces=%d rejected=%d distinct=%d wall=%s %s\n", res.OK, jb.Len(), len(rej), res.Distinct, res.Wall.Round(time.Millisecond), res.What)
 	if !res.OK {
@@ -738,7 +758,15 @@ func TestCheck(t *testing.T) {
 		i := idx[k]
 		e.Sample(tv.M{"program": progs[i], "schedule": results[i].schedule, "trace": jb.TraceStrings(k)})
 	}
+	freeSeen := false
 	for _, r := range rej {
+		if r.Trace >= nFree0 {
+			if !freeSeen { // one finding per run: every batcher that lost a value shows the same thing
+				freeSeen = true
+				e.Violation("free-running:a-value-batched-right-after-the-previous-delivery-was-never-delivered", r.Why, tv.M{"scenario": "free-running back-to-back Batch calls (interval 0, prompt subscriber), a Batch racing the exit of the queue processor's loop", "trace": jb.TraceStrings(r.Trace), "at": r.At})
+			}
+			continue
+		}
 		if r.Trace >= nGated {
 			e.Violation("Close-returned-while-an-accepted-subscriber-channel-was-still-open", r.Why, tv.M{"scenario": "ungated Subscribe racing Close", "trace": jb.TraceStrings(r.Trace)})
 			continue
